@@ -78,6 +78,8 @@ pub enum ShapeFault {
     /// two faults at once
     DataAndOut { k: u8, delta: i32, odelta: i64 },
     OutAndScratch { delta: i64 },
+    /// empty data: with an output of `out_chunks` whole chunks plus `out_extra` elements, and/or scratch one short
+    EmptyData { out_chunks: u8, out_extra: u8, short_scratch: bool },
 }
 
 #[derive(Clone, Debug, PartialEq, Serialize, Deserialize)]
@@ -140,6 +142,18 @@ pub enum Op {
         k: u8,
         input: InputSpec,
         at: u64,
+    },
+    /// A self-contained, reference-checked call on a planner-built transform of the *other* float type (f64 in an f32
+    /// world and vice versa) on this simulated thread: state that outlives a call and is shared across element types
+    /// (thread-locals, statics) only shows up in such mixed histories.
+    Foreign {
+        pk: crate::world::PK,
+        len: usize,
+        dir: crate::world::Dir,
+        entry: Entry,
+        k: u8,
+        seed: u64,
+        place: crate::arena::Place,
     },
     /// C07: process chunk `chunk` of shared buffer `buf` through this thread's own sub-slice
     SplitChunk {
